@@ -866,6 +866,38 @@ fn serde_limb(cx: &mut Cx) {
     }
 }
 
+
+// ------------------------------------------------------------------------------------------------
+// every type alias of the crate (core and extra-sizes tables): the alias-specific impls are generated per table
+// entry (`impl_uint_aliases!`: inherent to_be_bytes/to_le_bytes with the byte count spelled in the table, `Encoding`),
+// so every entry is exercised once with a value that has a distinct octet in every position.
+macro_rules! alias_events {
+    ($name:ident, $bits:literal, $cx:expr) => {{
+        let cx: &mut Cx = $cx;
+        const N: usize = $bits / 64;
+        let nb = $bits / 8;
+        let mut v = vec![0u64; N];
+        for (k, x) in v.iter_mut().enumerate() { *x = (0x0102_0304_0506_0708u64).wrapping_mul(2 * k as u64 + 1) ^ cx.rng.next(); }
+        v[N - 1] |= 1 << 63;
+        let x: vh::cb::$name = mk::<N>(&v);
+        let form = |f: &str| format!("{}.{}", stringify!($name), f);
+        cx.call(e_id(&form("BITS"), &[$bits as u64]), || oy(&[<vh::cb::$name>::BITS as u64]));
+        cx.call(e_id(&form("BYTES"), &[nb as u64]), || oy(&[<vh::cb::$name>::BYTES as u64]));
+        cx.call(e_enc(&form("to_be_bytes"), &v, nb, "be"), || O::ok().b("bytes", &x.to_be_bytes()));
+        cx.call(e_enc(&form("to_le_bytes"), &v, nb, "le"), || O::ok().b("bytes", &x.to_le_bytes()));
+        cx.call(e_enc(&form("Encoding.to_be_bytes"), &v, nb, "be"), || O::ok().b("bytes", Encoding::to_be_bytes(&x).as_ref()));
+        cx.call(e_enc(&form("Encoding.to_le_bytes"), &v, nb, "le"), || O::ok().b("bytes", Encoding::to_le_bytes(&x).as_ref()));
+        let (be, le) = (x.to_be_bytes(), x.to_le_bytes());
+        cx.call(e_dec(&form("Encoding.from_be_bytes"), &be, nb, "be"), || oy(&raw(&<vh::cb::$name as Encoding>::from_be_bytes(be))));
+        cx.call(e_dec(&form("Encoding.from_le_bytes"), &le, nb, "le"), || oy(&raw(&<vh::cb::$name as Encoding>::from_le_bytes(le))));
+        cx.call(e_dec(&form("from_be_slice"), &be, nb, "be"), || oy(&raw(&<vh::cb::$name>::from_be_slice(&be))));
+        cx.call(e_dec(&form("from_le_slice"), &le, nb, "le"), || oy(&raw(&<vh::cb::$name>::from_le_slice(&le))));
+    }};
+}
+fn all_aliases(cx: &mut Cx) {
+    vh::for_each_alias!(alias_events, cx);
+}
+
 fn main() {
     let mut cx = Cx::from_args("C16");
     let s = cx.scale;
@@ -901,6 +933,10 @@ fn main() {
         array_codec::<8>(&mut cx, 20 * s);
         array_codec::<16>(&mut cx, 10 * s);
         array_codec::<32>(&mut cx, 6 * s);
+        // the remaining entries of the byte-size table (src/uint/array.rs), every one at least twice
+        array_codec::<9>(&mut cx, 2); array_codec::<12>(&mut cx, 2); array_codec::<13>(&mut cx, 2); array_codec::<14>(&mut cx, 2);
+        array_codec::<24>(&mut cx, 2); array_codec::<28>(&mut cx, 2); array_codec::<48>(&mut cx, 2); array_codec::<56>(&mut cx, 2);
+        array_codec::<64>(&mut cx, 2); array_codec::<96>(&mut cx, 2); array_codec::<128>(&mut cx, 2);
     }
     if cx.want("words") {
         words::<1>(&mut cx, 30 * s);
@@ -964,6 +1000,122 @@ fn main() {
         cs_mixed::<7, 9, 16>(&mut cx, 10 * s);
         cs_mixed::<15, 1, 16>(&mut cx, 10 * s);
     }
+    if cx.want("concat") {
+        // every (low, high) split the crate implements up to 1024 bits (impl_uint_concat_split_mixed! table)
+        cs_mixed::<1, 2, 3>(&mut cx, 2);
+        cs_mixed::<2, 1, 3>(&mut cx, 2);
+        cs_mixed::<1, 3, 4>(&mut cx, 2);
+        cs_mixed::<3, 1, 4>(&mut cx, 2);
+        cs_mixed::<1, 4, 5>(&mut cx, 2);
+        cs_mixed::<2, 3, 5>(&mut cx, 2);
+        cs_mixed::<3, 2, 5>(&mut cx, 2);
+        cs_mixed::<4, 1, 5>(&mut cx, 2);
+        cs_mixed::<1, 5, 6>(&mut cx, 2);
+        cs_mixed::<2, 4, 6>(&mut cx, 2);
+        cs_mixed::<4, 2, 6>(&mut cx, 2);
+        cs_mixed::<5, 1, 6>(&mut cx, 2);
+        cs_mixed::<1, 6, 7>(&mut cx, 2);
+        cs_mixed::<2, 5, 7>(&mut cx, 2);
+        cs_mixed::<3, 4, 7>(&mut cx, 2);
+        cs_mixed::<4, 3, 7>(&mut cx, 2);
+        cs_mixed::<5, 2, 7>(&mut cx, 2);
+        cs_mixed::<6, 1, 7>(&mut cx, 2);
+        cs_mixed::<1, 7, 8>(&mut cx, 2);
+        cs_mixed::<2, 6, 8>(&mut cx, 2);
+        cs_mixed::<3, 5, 8>(&mut cx, 2);
+        cs_mixed::<5, 3, 8>(&mut cx, 2);
+        cs_mixed::<6, 2, 8>(&mut cx, 2);
+        cs_mixed::<7, 1, 8>(&mut cx, 2);
+        cs_mixed::<1, 8, 9>(&mut cx, 2);
+        cs_mixed::<2, 7, 9>(&mut cx, 2);
+        cs_mixed::<3, 6, 9>(&mut cx, 2);
+        cs_mixed::<4, 5, 9>(&mut cx, 2);
+        cs_mixed::<5, 4, 9>(&mut cx, 2);
+        cs_mixed::<6, 3, 9>(&mut cx, 2);
+        cs_mixed::<7, 2, 9>(&mut cx, 2);
+        cs_mixed::<8, 1, 9>(&mut cx, 2);
+        cs_mixed::<1, 9, 10>(&mut cx, 2);
+        cs_mixed::<2, 8, 10>(&mut cx, 2);
+        cs_mixed::<3, 7, 10>(&mut cx, 2);
+        cs_mixed::<4, 6, 10>(&mut cx, 2);
+        cs_mixed::<6, 4, 10>(&mut cx, 2);
+        cs_mixed::<7, 3, 10>(&mut cx, 2);
+        cs_mixed::<8, 2, 10>(&mut cx, 2);
+        cs_mixed::<9, 1, 10>(&mut cx, 2);
+        cs_mixed::<1, 10, 11>(&mut cx, 2);
+        cs_mixed::<2, 9, 11>(&mut cx, 2);
+        cs_mixed::<3, 8, 11>(&mut cx, 2);
+        cs_mixed::<4, 7, 11>(&mut cx, 2);
+        cs_mixed::<5, 6, 11>(&mut cx, 2);
+        cs_mixed::<6, 5, 11>(&mut cx, 2);
+        cs_mixed::<7, 4, 11>(&mut cx, 2);
+        cs_mixed::<8, 3, 11>(&mut cx, 2);
+        cs_mixed::<9, 2, 11>(&mut cx, 2);
+        cs_mixed::<10, 1, 11>(&mut cx, 2);
+        cs_mixed::<1, 11, 12>(&mut cx, 2);
+        cs_mixed::<2, 10, 12>(&mut cx, 2);
+        cs_mixed::<3, 9, 12>(&mut cx, 2);
+        cs_mixed::<4, 8, 12>(&mut cx, 2);
+        cs_mixed::<5, 7, 12>(&mut cx, 2);
+        cs_mixed::<7, 5, 12>(&mut cx, 2);
+        cs_mixed::<8, 4, 12>(&mut cx, 2);
+        cs_mixed::<9, 3, 12>(&mut cx, 2);
+        cs_mixed::<10, 2, 12>(&mut cx, 2);
+        cs_mixed::<11, 1, 12>(&mut cx, 2);
+        cs_mixed::<1, 12, 13>(&mut cx, 2);
+        cs_mixed::<2, 11, 13>(&mut cx, 2);
+        cs_mixed::<3, 10, 13>(&mut cx, 2);
+        cs_mixed::<4, 9, 13>(&mut cx, 2);
+        cs_mixed::<5, 8, 13>(&mut cx, 2);
+        cs_mixed::<6, 7, 13>(&mut cx, 2);
+        cs_mixed::<7, 6, 13>(&mut cx, 2);
+        cs_mixed::<8, 5, 13>(&mut cx, 2);
+        cs_mixed::<9, 4, 13>(&mut cx, 2);
+        cs_mixed::<10, 3, 13>(&mut cx, 2);
+        cs_mixed::<11, 2, 13>(&mut cx, 2);
+        cs_mixed::<12, 1, 13>(&mut cx, 2);
+        cs_mixed::<1, 13, 14>(&mut cx, 2);
+        cs_mixed::<2, 12, 14>(&mut cx, 2);
+        cs_mixed::<3, 11, 14>(&mut cx, 2);
+        cs_mixed::<4, 10, 14>(&mut cx, 2);
+        cs_mixed::<5, 9, 14>(&mut cx, 2);
+        cs_mixed::<6, 8, 14>(&mut cx, 2);
+        cs_mixed::<8, 6, 14>(&mut cx, 2);
+        cs_mixed::<9, 5, 14>(&mut cx, 2);
+        cs_mixed::<10, 4, 14>(&mut cx, 2);
+        cs_mixed::<11, 3, 14>(&mut cx, 2);
+        cs_mixed::<12, 2, 14>(&mut cx, 2);
+        cs_mixed::<13, 1, 14>(&mut cx, 2);
+        cs_mixed::<1, 14, 15>(&mut cx, 2);
+        cs_mixed::<2, 13, 15>(&mut cx, 2);
+        cs_mixed::<3, 12, 15>(&mut cx, 2);
+        cs_mixed::<4, 11, 15>(&mut cx, 2);
+        cs_mixed::<5, 10, 15>(&mut cx, 2);
+        cs_mixed::<6, 9, 15>(&mut cx, 2);
+        cs_mixed::<7, 8, 15>(&mut cx, 2);
+        cs_mixed::<8, 7, 15>(&mut cx, 2);
+        cs_mixed::<9, 6, 15>(&mut cx, 2);
+        cs_mixed::<10, 5, 15>(&mut cx, 2);
+        cs_mixed::<11, 4, 15>(&mut cx, 2);
+        cs_mixed::<12, 3, 15>(&mut cx, 2);
+        cs_mixed::<13, 2, 15>(&mut cx, 2);
+        cs_mixed::<14, 1, 15>(&mut cx, 2);
+        cs_mixed::<1, 15, 16>(&mut cx, 2);
+        cs_mixed::<2, 14, 16>(&mut cx, 2);
+        cs_mixed::<3, 13, 16>(&mut cx, 2);
+        cs_mixed::<4, 12, 16>(&mut cx, 2);
+        cs_mixed::<5, 11, 16>(&mut cx, 2);
+        cs_mixed::<6, 10, 16>(&mut cx, 2);
+        cs_mixed::<7, 9, 16>(&mut cx, 2);
+        cs_mixed::<9, 7, 16>(&mut cx, 2);
+        cs_mixed::<10, 6, 16>(&mut cx, 2);
+        cs_mixed::<11, 5, 16>(&mut cx, 2);
+        cs_mixed::<12, 4, 16>(&mut cx, 2);
+        cs_mixed::<13, 3, 16>(&mut cx, 2);
+        cs_mixed::<14, 2, 16>(&mut cx, 2);
+        cs_mixed::<15, 1, 16>(&mut cx, 2);
+    }
+    if cx.want("alias") { all_aliases(&mut cx); }
     if cx.want("resize") {
         resize::<1, 1>(&mut cx, 10 * s);
         resize::<1, 2>(&mut cx, 25 * s);
